@@ -353,7 +353,9 @@ func cmdCheck(args []string) int {
 	if *prop == "C13" {
 		cc.gatherSweep()
 	}
-	timeout := 10000
+	// the quick budget per obligation is generous on purpose: what is claimed discharges in well under a third of
+	// it on the pinned tree (slower obligations are recorded as unclaimed when the lock file is written)
+	timeout := 25000
 	if *tier == "thorough" {
 		timeout = 120000
 	}
@@ -408,7 +410,10 @@ func cmdCheck(args []string) int {
 				}
 				continue
 			}
-			if o.Status == "discharged" {
+			if o.Status == "discharged" && o.Res.Ms > 6000 {
+				// slow queries are the unstable ones: not claimed
+				nl.Unclaimed = append(nl.Unclaimed, o.Name)
+			} else if o.Status == "discharged" {
 				nl.Obligations = append(nl.Obligations, o.Name)
 			} else if matchKnown(kfs, *prop, o.Name) == nil {
 				nl.Unclaimed = append(nl.Unclaimed, o.Name)
